@@ -370,12 +370,12 @@ class Disassembler:
         return self._defb(a, 2)
 
     def port_arg(self, template, a, base):
-        if base == 'm':
+        if base[:1] == 'm':
             base = DEFAULT_BASE # The assembler accepts no negative port number
         return template.format(self.op_formatter.format_byte(self.snapshot[(a + 1) & 65535], base)), 2
 
     def rst_arg(self, template, a, base):
-        if base == 'm':
+        if base[:1] == 'm':
             base = DEFAULT_BASE # The assembler accepts no negative RST address
         return template[:4] + self.op_formatter.format_byte(int(template[4:]), base), 1
 
